@@ -62,12 +62,43 @@ Definition check_blocks (blocks : list bytes) (file : bytes)
   (if bytes_eqb (write_chunks blocks) file then [] else [O])
   ++ check_muts file obs 1.
 
-(* model self-check used in case files: the boolean guard of the integrity theorem
-   predicts "error or original" for a flip at position i *)
-Definition guard_holds (ds : list bytes) (i : nat) (y : N) (off len : nat) (orig : bytes) : bool :=
+(* ---------- model self-check (redundant with C18_never_altered_data_guarded) ---------- *)
+(* data of every non-empty prefix of a chunk list *)
+Fixpoint prefixes (ds : list bytes) : list bytes :=
+  match ds with
+  | [] => []
+  | d :: r => d :: map (app d) (prefixes r)
+  end.
+
+(* every chunk-aligned run: (file offset, original data) *)
+Fixpoint all_runs (off : nat) (ds : list bytes) : list (nat * bytes) :=
+  match ds with
+  | [] => []
+  | d :: r => map (pair off) (prefixes ds) ++ all_runs (off + HDR + length d) r
+  end.
+
+(* where the boolean guard of the integrity theorem holds, the model's read of the
+   damaged file is an error or the original data *)
+Definition guard_holds (ds : list bytes) (i : nat) (y : N) (off : nat) (orig : bytes) : bool :=
   if damage_guard ds i y then
-    match read_at off len (set_nth i y (write_chunks ds)) with
+    match read_at off (length orig) (set_nth i y (write_chunks ds)) with
     | Ok d => bytes_eqb d orig
     | _ => true
     end
   else true.
+
+Fixpoint self_check (ds : list bytes) (flips : list (N * N)) (idx : nat) : list nat :=
+  match flips with
+  | [] => []
+  | (i, y) :: r =>
+    (if forallb (fun '(off, orig) => guard_holds ds (N.to_nat i) y off orig) (all_runs 0 ds)
+     then [] else [idx])
+    ++ self_check ds r (S idx)
+  end.
+
+(* the chunk data of the file must also be what the ops wrote; self-check indices start at 4000 *)
+Definition check_ops_self (ops : list wop) (ds : list bytes) (file : bytes)
+  (obs : list (mutation * list read_obs)) (flips : list (N * N)) : list nat :=
+  check_ops ops file obs
+  ++ (if bytes_eqb (write_chunks ds) file then [] else [3999%nat])
+  ++ self_check ds flips 4000.
